@@ -183,7 +183,7 @@ class _Comp:
         u.event("ZLibCompressor", kw)
 
     def _need_lock(self, what):
-        self.u.event(what, self.lock.held)
+        self.u.event(what, self.lock.held, self)
 
     def compress_sync(self, data):
         stubs.used("ZLibCompressor.compress_sync/compress/flush: opaque deflate (A: zlib); only call order and locking are verified")
@@ -291,6 +291,16 @@ def send_frame_discipline(u: U):
     u.check("C13.writer.no_data_frame_after_close",
             Implies(And(closing0, opcode < 8), And(not out.ok, len(frames) == 0, len(asynclocked) == 0)),
             "once the close frame was sent (_closing) send_frame refuses every data frame before writing a byte")
+    used = [e[2] for e in comp_events if e[0] == "compress"]
+    shared = fields(w)["_compressobj"]
+    u.check("C11.deflate.one_context_with_takeover",
+            Implies(Not(w.notakeover), all(c_ is shared for c_ in used)),
+            "with context takeover the receiver inflates every compressed message with ONE sliding window, so every "
+            "compressed data frame must come from the connection's one persistent compressor - a frame from any other "
+            "compressor desynchronises the window and later messages inflate to different bytes",
+            known=[("F11a", And(Not(w.notakeover), bool(comp_arg)))],
+            witness={"sequence": "send_str(a); send_str(b, compress=15); send_str(a) on a connection with negotiated "
+                                 "permessage-deflate and context takeover"})
     u.check("C11.lock.compressor_only_under_lock", all(e[1] is True for e in comp_events),
             "compress/flush of the (shared) compressor only while _send_lock is held")
     u.check("C11.lock.compressed_write_under_lock", all(e[3] is True for e in frames if e[2] != 0),
